@@ -351,6 +351,17 @@ Theorem C04_lift_is_section :
 Proof. exact @lift_is_section. Qed.
 Print Assumptions C04_lift_is_section.
 
+(* flip(g)(b) is PartialApp1(g, b), which is not a section of flip(g) itself but agrees with it:
+   flip(g)(b)(a) = flip(g)(a, b) = g(b, a) *)
+Theorem C04_flip_curried :
+  forall (B C D : Type) (brun : B -> list (val B C D) -> outcome (val B C D))
+         (crun : C -> list (val B C D) -> outcome (val B C D))
+         (diter : D -> outcome (list (val B C D))) n g a b,
+  eval brun crun diter (S (S n)) (form_curried (FFlip g) a b) = run brun crun diter (S (S n)) (FFlip g) [a; b] /\
+  run brun crun diter (S (S n)) (FFlip g) [a; b] = run brun crun diter (S n) g [b; a].
+Proof. exact @flip_curried. Qed.
+Print Assumptions C04_flip_curried.
+
 (* ... and the variadic combinators are not (known finding `variadic-combinator`, now a theorem about the
    model, for all g h and all builtin meanings): f(h, g) succeeds, f(g) is a function, f(g)(h) is not f(h, g) *)
 Theorem C04_variadic_combinators_not_sections :
